@@ -94,6 +94,13 @@ func (s *syncer) AddChunk(chunk *chunk) (bool, error) {
 	if s.chunks == nil {
 		return false, errors.New("no state sync in progress")
 	}
+	// Chunks from a sender the application has rejected are refused, also when they were
+	// already in flight or are unsolicited.
+	if s.snapshots.IsPeerRejected(chunk.Sender) {
+		s.logger.Debug("Ignoring chunk from rejected sender", "height", chunk.Height, "format", chunk.Format,
+			"chunk", chunk.Index, "peer", chunk.Sender)
+		return false, nil
+	}
 	added, err := s.chunks.Add(chunk)
 	if err != nil {
 		return false, err
